@@ -149,7 +149,7 @@ instance : Len (List (List Char)) := ⟨List.length⟩
 
 def len {α : Type} [Len α] (x : α) : Int := Int.ofNat (Len.lenN x)
 
-/-! ### lemmas used by the ties (`CM/Tie/Fn.lean`) -/
+/-! ### lemmas used by the ties (`CM/Tie/FnCxx.lean`) -/
 
 theorem idx_append_length {α : Type} [Inhabited α] (pre : List α) (x : α) (rest : List α) :
     idx (pre ++ x :: rest) (Int.ofNat pre.length) = x := by
